@@ -121,6 +121,9 @@ class StmtMixin:
                         for field, expr in lem.get('ghost', []):
                             # ghost assignment: g.<field> := <expr> (ghost state only)
                             self.path.write_field(self.lookup('g'), field, self.spec_eval(expr, None, self.old_store))
+                        for lab, clause in lem.get('assume', {}).items():
+                            # an assumed fact instantiated here (a global invariant the contracts list as an assumption)
+                            self.path.assume(self.spec_bool(clause, None, self.old_store), tag=lab)
                         for lab, clause in lem.get('prove', {}).items():
                             f = self.spec_bool(clause, None, self.old_store)
                             prove(self, 'lemma.' + lab, f)
